@@ -63,7 +63,22 @@ def dedupApprox (ps : List (Pt Q)) : List (Pt Q) :=
       | q :: t => if near q prev then go prev t else q :: go q t
     p :: go p rest
 
-def normPiecesApprox (l : List (List (Pt Q))) : List (List (Pt Q)) := l.map fun p => dropCollinear (dedupApprox p)
+/-- `dropCollinear` with a tolerance: `b` is dropped when the turn at `b` has sin² ≤ 1e-18 and the
+    direction is kept.  (A clipped end point that float64 rounds off the carrier line by an ulp makes an
+    exactly collinear run a→b→c inexactly collinear: the Go result keeps `b`, the exact one drops it;
+    both sides are normalised with this function before a tolerant comparison.) -/
+def dropCollinearApprox : List (Pt Q) → List (Pt Q)
+  | a :: b :: c :: rest =>
+    let cr := (b.x - a.x) * (c.y - b.y) - (b.y - a.y) * (c.x - b.x)
+    let dt := (b.x - a.x) * (c.x - b.x) + (b.y - a.y) * (c.y - b.y)
+    let n1 := (b.x - a.x) * (b.x - a.x) + (b.y - a.y) * (b.y - a.y)
+    let n2 := (c.x - b.x) * (c.x - b.x) + (c.y - b.y) * (c.y - b.y)
+    if cr * cr * 1000000000000000000 ≤ n1 * n2 && dt > 0 then dropCollinearApprox (a :: c :: rest)
+    else a :: dropCollinearApprox (b :: c :: rest)
+  | l => l
+termination_by l => l.length
+
+def normPiecesApprox (l : List (List (Pt Q))) : List (List (Pt Q)) := l.map fun p => dropCollinearApprox (dedupApprox p)
 
 /-! ### the specification: Liang–Barsky per segment, exact -/
 
@@ -166,6 +181,7 @@ def handleLine (inp out : Toks) : String :=
           x.length == y.length && (x.zip y).all fun (p, q) =>
             p.length == q.length && (p.zip q).all fun (u, v) => close u.x v.x && close u.y v.y
         let judge (gotN : List (List (Pt Q))) (isExact : Bool) : String :=
+          let spec := if isExact then spec else normPiecesApprox spec
           if (if isExact then gotN == spec else approxEq gotN spec) then
             (if gotN.isEmpty then "ok none-inside" else if gotN.length > 1 then "ok multi-piece" else "ok one-piece")
               ++ (if isExact then "" else " approx")
